@@ -1,6 +1,7 @@
 /- C13 driver:
    `C13 run [chunk,maxBuf] [op,…]`   → as `C11 run` (the same machine)
    `C13 expect req x<buffer>`         → ok outcome | ok ~     (Spec.expected with the concrete regexes)
+   `C13 later [req,…] x<buffer>`      → ok [outcome | ~,…]     (Spec.laterReads: reads after the close, served from the buffer)
 -/
 import TornadoModel.Base.Wire
 import TornadoModel.C11.Drv
@@ -24,6 +25,10 @@ def handle (toks : List String) : String :=
   | ["expect", q, b] =>
     match V.parse q >>= decReq, V.parse b >>= V.byteNats? with
     | some q, some b => ok [V.ofOpt C11.Drv.encOutcome (Spec.expected stdR q b)]
+    | _, _ => err "bad-arg"
+  | ["later", qs, b] =>
+    match V.parse qs >>= V.list? >>= (·.mapM decReq), V.parse b >>= V.byteNats? with
+    | some qs, some b => ok [.list ((Spec.laterReads stdR qs b).map (V.ofOpt C11.Drv.encOutcome))]
     | _, _ => err "bad-arg"
   | _ => err "bad-line"
 
